@@ -131,9 +131,11 @@ class Gen:
                 d = self.keys[self.some_peer()] ^ self.local ^ rng.choice([0, 0, 1, 2, 3])
             else:
                 d = rand_distance(rng)
-        if not self.ops[-1].startswith(("dump", "closest")):
+        if not self.ops[-1].startswith(("dump", "closest", "iter")):
             self.ops.append("dump")
         self.ops.append(f"closest {hx(self.local ^ d)} {k if k is not None else rng.choice(KS)}")
+        if rng.random() < 0.25:
+            self.ops.append("iter " + hx(d))        # the bucket visit order for this distance
 
 
 def gen_case(rng, size, target_bit=None):
@@ -212,10 +214,10 @@ def gen_cases(rng, tier):
         for i in range(1500):
             yield gen_case(rng, rng.choice([1, 2, 3]))
     else:
-        for rep in range(12):
+        for rep in range(40):
             for i in range(BITS):           # every bucket index as target distance
                 yield gen_case(rng, rng.choice([1, 2, 3]), target_bit=i)
-        for i in range(6000):
+        for i in range(30000):
             yield gen_case(rng, rng.choice([1, 2, 3, 4]))
         for i in range(200):
             yield gen_malformed(rng)
